@@ -193,7 +193,12 @@ func validateProtocolChanges(changes map[string]DefinitionChange, saveWarning, s
 	for _, protChange := range changes {
 		switch protChange := protChange.(type) {
 		case *ProtocolRemoved:
-			saveWarning(protChange.LatestDefinition(), "Removed protocol '%s'", protChange.PreviousDefinition().GetDefinitionMeta().Name)
+			// the warning is attached to some definition of the latest model; a model that defines nothing has none
+			var where Node = protChange.LatestDefinition()
+			if protChange.LatestDefinition() == nil {
+				where = protChange.PreviousDefinition()
+			}
+			saveWarning(where, "Removed protocol '%s'", protChange.PreviousDefinition().GetDefinitionMeta().Name)
 		}
 	}
 
